@@ -1462,6 +1462,22 @@ func (e *env) templatePaths(g dutygen.Gen, family string) []string {
 	return leafPaths(raw)
 }
 
+// vapiPaths are the leaf fields of the submission type of a validator-API endpoint.
+func (e *env) vapiPaths(ep endpoint, g dutygen.Gen) []string {
+	paths := e.templatePaths(g, ep.family)
+	if ep.name != "SubmitBlindedProposal" {
+		return paths
+	}
+	var keep []string // VersionedSignedBlindedProposal has no Blinded field
+	for _, p := range paths {
+		if p != ".Blinded" {
+			keep = append(keep, p)
+		}
+	}
+
+	return keep
+}
+
 func (e *env) pick(paths []string, k int) []string {
 	if k <= 0 || k >= len(paths) {
 		return paths
@@ -1557,7 +1573,7 @@ func (e *env) genCases(perGenLeaves int) genOut {
 				add(c)
 			}
 			// beacon-node lookup faults during the call, around valid and invalid submissions
-			tpaths := e.templatePaths(g, ep.family)
+			tpaths := e.vapiPaths(ep, g)
 			for _, fp := range faultPlan(perGenLeaves > 100, false) {
 				k, _ := strconv.Atoi(fp[0])
 				c := base
@@ -1589,16 +1605,7 @@ func (e *env) genCases(perGenLeaves int) genOut {
 			// default epoch signed with the latest fork's domain, and a correctly signed one, once more
 			one("far_fork_domain", func(it *ItemSpec) { it.Variant = 4 })
 			one("valid_after_other_forks", nil)
-			paths := e.templatePaths(g, ep.family)
-			if ep.name == "SubmitBlindedProposal" { // VersionedSignedBlindedProposal has no Blinded field
-				var keep []string
-				for _, p := range paths {
-					if p != ".Blinded" {
-						keep = append(keep, p)
-					}
-				}
-				paths = keep
-			}
+			paths := tpaths
 			out.leaves[ep.name+"|"+gn] = len(paths)
 			for _, p := range e.pick(paths, perGenLeaves) {
 				one("field:"+p, func(it *ItemSpec) { it.Mut = p })
